@@ -106,7 +106,7 @@ Inductive mapres := MapKernel | MapAt (m : mmap) | MapNone.
 Fixpoint first_map (ms : list mmap) (a : Z) : option mmap :=
   match ms with
   | [] => None
-  | m :: r => if (m_start m <=? a) && (a <? m_end m) then Some m else first_map r a
+  | m :: r => if map_contains (m_start m) a (m_end m) then Some m else first_map r a
   end.
 
 Definition find_map (si : sinfo) (a : Z) : mapres :=
@@ -530,15 +530,18 @@ Fixpoint insert_session (s : session) (l : list session) : list session :=
   match l with
   | [] => [s]
   | x :: r =>
-      if (se_pid x >? se_pid s) || ((se_pid x =? se_pid s) && (se_start x >? se_start s))
+      if cs_pid_gt (se_pid x) (se_pid s) || (negb (cs_pid_lt (se_pid x) (se_pid s)) && cs_start_gt (se_start x) (se_start s))
       then s :: l else x :: insert_session s r
   end.
 
-(* find_session: the in-order last session with the pid and start_time <= timestamp *)
+(* find_session: the in-order last session with the pid and start_time <= timestamp (the three
+   comparisons of the tree descent, generated from the C text) *)
+Definition sess_matches (pid ts : Z) (x : session) : bool :=
+  negb (fs_pid_gt (se_pid x) pid) && negb (fs_pid_lt (se_pid x) pid) && negb (fs_start_gt (se_start x) ts).
 Fixpoint find_session_go (l : list session) (pid ts : Z) (best : option session) : option session :=
   match l with
   | [] => best
-  | x :: r => find_session_go r pid ts (if (se_pid x =? pid) && (se_start x <=? ts) then Some x else best)
+  | x :: r => find_session_go r pid ts (if sess_matches pid ts x then Some x else best)
   end.
 Definition find_session (l : list session) (pid ts : Z) : option session := find_session_go l pid ts None.
 
@@ -598,7 +601,7 @@ Definition create_session (lk : link) (sid : str) (pid tid time : Z) (info : sin
 Fixpoint insert_dl (d : dlib) (l : list dlib) : list dlib :=
   match l with
   | [] => [d]
-  | x :: r => if d_time x >? d_time d then d :: l else x :: insert_dl d r
+  | x :: r => if dl_insert_before (d_time x) (d_time d) then d :: l else x :: insert_dl d r
   end.
 (* get_session_from_sid: first in in-order with that sid *)
 Fixpoint add_dlopen_go (l : list session) (sid : str) (d : dlib) : list session :=
@@ -621,7 +624,7 @@ Fixpoint session_by_id (l : list session) (id : nat) : option session :=
 Fixpoint find_ref (refs : list sref) (ts : Z) : option sref :=
   match refs with
   | [] => None
-  | r :: more => if (r_start r <=? ts) && (ts <? r_end r) then Some r else find_ref more ts
+  | r :: more => if ref_contains (r_start r) ts (r_end r) then Some r else find_ref more ts
   end.
 
 (* find_task_session: own references, else the parent's / thread leader's (the C loop has no
@@ -652,7 +655,7 @@ Fixpoint find_dlsym_rev (l : list dlib) (time a : Z) : option sym :=      (* l =
   match l with
   | [] => None
   | d :: r =>
-      if d_time d >? time then find_dlsym_rev r time a
+      if dl_later (d_time d) time then find_dlsym_rev r time a
       else match find_sym (d_tab d) ((a - d_base d) mod W64) with
            | Some s => Some s
            | None => find_dlsym_rev r time a
